@@ -3,6 +3,7 @@ import GrVerif.Proofs.PassLoad
 import GrVerif.Proofs.LoadedPass
 import GrVerif.Proofs.ClassMap
 import GrVerif.Proofs.SilfLoad
+import GrVerif.Proofs.CodeLoop
 import GrVerif.Props.C13
 import GrVerif.Props.C14
 /-!
@@ -120,7 +121,54 @@ theorem silf_table_total (b : List Nat) (numGlyphs numAttrs : Nat) (hasBoxes : B
     ∃ r, readSilfTable b numGlyphs numAttrs hasBoxes = .ok r :=
   readSilfTable_total b numGlyphs numAttrs hasBoxes
 
+/-- **the code loader (`Machine::Code::Code` and its `decoder`) is total, in bounds, and its buffers suffice** – for every
+bytecode, every set of limits, constraint and action code, every pass type (rule length at most 254 for actions; `readRules`
+refuses rules longer than 63): the loop of `decoder::load` ends; `validate_opcode`, `fetch_opcode`, `analyse_opcode` and
+`emit_opcode` read only bytes of `[bytecode_begin, bytecode_end)` (parameter sizes and which opcodes exist for which kind of code
+come from the regenerated `opcode_table.h`) and write `_contexts[256]` only inside the array; and for an accepted program the
+instructions together with the `TEMP_COPY`s that `apply_analysis` inserts fit the `bytecode_end - bytecode_begin` instruction slots
+in front of the data area (so the `memmove` that makes room for them never runs into the parameter bytes), the parameter bytes fit
+the data area, and every instruction's class, feature, glyph-attribute, metric and slot-attribute operands are below the limits -/
+theorem code_loader_total (l : CodeLoad.Limits) (constraint : Bool) (pt : Nat) (bc : List Nat) (hrl : constraint = false → l.ruleLength ≤ 254) :
+    ∃ r, CodeLoad.load l constraint pt bc = .ok r ∧ ∀ p, r = .ok (some p) →
+      p.instrs.length ≤ bc.length ∧ p.dataSize ≤ bc.length ∧ ∀ i ∈ p.instrs, CodeLoad.OperandsOK l i.1 i.2 :=
+  CodeLoad.load_total l constraint pt bc hrl
+
+/-- **from the loader to the run time**: a program the code loader accepted against the class count of an accepted class map only
+ever hands `Silf::getClassGlyph` / `Silf::findClassIndex` class numbers for which every access to the class map is in bounds
+(the look-ups themselves let `cid == numClasses` through: `class_lookups_in_bounds` needs `cid < numClasses`, which is exactly
+what `valid_upto(_max.classes, …)` established for the operands of `PUT_GLYPH` and `PUT_SUBS`) -/
+theorem accepted_code_class_lookups_in_bounds (l : CodeLoad.Limits) (constraint : Bool) (pt : Nat) (bc : List Nat) (hrl : constraint = false → l.ruleLength ≤ 254)
+    (m : ClassMap) (hm : ClassMapOK m) (hl : l.classes = m.nClass) (p : CodeLoad.Loaded) (hp : CodeLoad.load l constraint pt bc = .ok (.ok (some p)))
+    (ps : List Nat) (x : Nat) :
+    ((59, ps) ∈ p.instrs → (∃ v, getClassGlyph m (CodeLoad.g ps 0 * 256 + CodeLoad.g ps 1) x = .ok v)) ∧
+    ((56, ps) ∈ p.instrs → (∃ v, findClassIndex m (CodeLoad.g ps 1 * 256 + CodeLoad.g ps 2) x = .ok v) ∧
+                            (∃ v, getClassGlyph m (CodeLoad.g ps 3 * 256 + CodeLoad.g ps 4) x = .ok v)) := by
+  obtain ⟨r, hr, hall⟩ := CodeLoad.load_total l constraint pt bc hrl
+  rw [hp] at hr
+  cases hr
+  have hops := (hall p rfl).2.2
+  constructor
+  · intro hi
+    have := (hops _ hi).1 rfl
+    rw [hl] at this
+    exact (class_lookups_in_bounds m hm _ x this).1
+  · intro hi
+    have := (hops _ hi).2.2.1 rfl
+    rw [hl] at this
+    exact ⟨(class_lookups_in_bounds m hm _ x this.1).2, (class_lookups_in_bounds m hm _ x this.2).1⟩
+
 /-! ### non-vacuity -/
+/-- an action (`PUT_GLYPH 3; NEXT; PUT_COPY -1; NEXT; RET_ZERO` for a two-slot rule) is accepted with one `TEMP_COPY` put in front:
+the first slot is changed and later referenced -/
+example : (match CodeLoad.load { preContext := 0, ruleLength := 2, classes := 5, glyfAttrs := 1, features := 1, numUser := 0 } false 2 [59, 0, 3, 25, 30, 255, 25, 49] with
+    | .ok (.ok (some p)) => (p.instrs.map (·.1), p.dataSize, p.maxRef, p.delete, p.temps) | _ => ([], 0, 0, false, 0)) = ([67, 59, 25, 30, 25, 49], 3, 1, true, 1) := by decide +kernel
+/-- with class 5 (the class count itself) the same action is refused: out_of_range_data -/
+example : CodeLoad.load { preContext := 0, ruleLength := 2, classes := 5, glyfAttrs := 1, features := 1, numUser := 0 } false 2 [59, 0, 5, 25, 30, 255, 25, 49] = .ok (.error 4) := by decide +kernel
+/-- a constraint with a context item -/
+example : (match CodeLoad.load { preContext := 1, ruleLength := 3, classes := 5, glyfAttrs := 4, features := 1, numUser := 0 } true 2 [34, 1, 3, 41, 2, 0, 48] with
+    | .ok (.ok (some p)) => p.instrs | _ => []) = [(34, [1, 1, 2]), (41, [2, 0]), (48, [])] := by decide +kernel
+
 /-- the second pass of `tests/fonts/small.ttf` (119 bytes at offset 215 of its Silf sub-table) is accepted -/
 def smallPass : List Nat := [0, 5, 2, 0, 0, 1, 0, 0, 0, 0, 1, 44, 0, 0, 1, 44, 0, 0, 1, 45, 0, 0, 0, 0, 0, 3, 0, 2, 0, 1, 0, 2, 0, 2, 0, 2, 0, 1, 0, 0, 0, 3, 0, 3, 0, 0, 0, 5, 0, 5, 0, 1, 0, 0, 0, 1, 0, 0, 0, 0, 0, 0, 0, 2, 0, 10, 0, 0, 0, 0, 0, 1, 0, 0, 0, 33, 0, 1, 0, 0, 0, 0, 0, 2, 0, 0, 27, 30, 0, 1, 255, 38, 2, 1, 0, 35, 17, 41, 6, 0, 35, 8, 41, 7, 0, 35, 9, 44, 6, 0, 35, 3, 44, 7, 0, 35, 4, 25, 49]
 /-- the Silf table of `tests/fonts/small.ttf`: its one sub-table (offset 12) followed by `smallPass` -/
